@@ -23,7 +23,7 @@ def main():
     n = 0
     for name, st in sorted(STATUS.items()):
         prop = name.split("_")[0]
-        src = f"/tmp/seeds_{prop}/{name}"
+        src = f"/tmp/seeds2_{prop}/{name}" if "_r2_" in name else f"/tmp/seeds_{prop}/{name}"
         dst = os.path.join(ROOT, "seeded", name)
         if not os.path.isdir(src):
             if not os.path.isdir(dst):
